@@ -452,6 +452,53 @@ def check_number_spelling(run: Run, rule: str) -> None:
     run.control(rule, "format(v, '.15g') is recognised as a precision-limited spelling", isinstance(ctl, ast.Call) and ctl.args[1].value not in _EXACT_SPECS)  # type: ignore[attr-defined]
 
 
+# ----------------------------------------------------------------------------- the parser keeps the token's kind
+def check_parser_keeps_kind(run: Run, rule: str) -> None:
+    """what kind of value a token is, is decided by the lexer (and mirrored by the emitter's quoting decision) - not re-decided by the parser"""
+    run.rule(rule, "the parser does not re-decide the kind of a scalar: in Parser.parse_value / parse_list_item a literal True / False / None, a comparison or a conditional of those is returned only in a branch for a BOOLEAN / NULL token (or is the empty-value fallback); a word (IDENTIFIER / STRING token) is returned as text - turning the text True / NULL into a boolean / null there would make a string the emitter leaves bare come back as another kind", 1)
+    pm = run.project.mod("core.parser")
+    from ..cfg import CFG, atomic_conditions
+
+    n = 0
+    for q in ("Parser.parse_value", "Parser.parse_list_item"):
+        if not pm.has_func(q):
+            continue
+        fi = pm.func(q)
+        cfg = CFG(fi.node)
+
+        def kindish(e: ast.AST | None) -> bool:
+            if isinstance(e, ast.Constant) and (isinstance(e.value, bool) or e.value is None):
+                return True
+            if isinstance(e, ast.Compare):
+                return True
+            if isinstance(e, ast.IfExp):
+                return kindish(e.body) or kindish(e.orelse)
+            if isinstance(e, ast.UnaryOp) and isinstance(e.op, ast.Not):
+                return True
+            return False
+
+        for rn in [x for x in cfg.nodes if isinstance(x.ast, ast.Return)]:
+            v = rn.ast.value  # type: ignore[union-attr]
+            if v is None or not kindish(v):
+                continue
+            if isinstance(v, ast.Constant) and v.value is None:
+                # `return None` as "no value here" (callers test for it) is not a null VALUE when nothing was consumed; judged
+                # only when a token's text was looked at on the way
+                conds0 = atomic_conditions(cfg, rn.id)
+                if not any(".value" in ast.unparse(t) and ("in " in ast.unparse(t) or "==" in ast.unparse(t)) for t, _v in conds0):
+                    continue
+            n += 1
+            conds = atomic_conditions(cfg, rn.id)
+            ok = any(val and isinstance(t, ast.Compare) and ".type" in ast.unparse(t.left) and any(k in ast.unparse(t) for k in ("TokenType.BOOLEAN", "TokenType.NULL")) for t, val in conds)
+            run.instance(rule, pm.loc(rn.ast), f"{q}: `{norm(rn.ast)[:70]}` in a BOOLEAN / NULL token branch", ok=ok)
+            if not ok:
+                run.violation(rule, pm, q, rn.ast, f"{q} returns `{norm(v)[:60]}` - a boolean / null made by the parser - outside the branch for a BOOLEAN / NULL token: a word such as True or NULL (which the emitter writes bare for the STRING \"True\") is read back as a boolean / null, so a value changes kind on write-then-read and a sealed document stops verifying after a round trip")
+    run.instance(rule, "src/octave_mcp/core/parser.py", f"{n} return(s) of boolean / null / comparison values examined in parse_value / parse_list_item", ok=True, nontrivial=False)
+    ctl = ast.parse("def f(t):\n    if t.value in W:\n        return None if W[t.value] == 'null' else W[t.value] == 'true'\n    return t.value\n").body[0]
+    rets = [r for r in ast.walk(ctl) if isinstance(r, ast.Return)]
+    run.control(rule, "a sample `return None if lit == 'null' else lit == 'true'` outside a BOOLEAN branch is recognised", any(isinstance(r.value, ast.IfExp) for r in rets))
+
+
 # ----------------------------------------------------------------------------- equality between kinds
 def _bool_const(e: ast.AST) -> bool:
     return isinstance(e, ast.Constant) and isinstance(e.value, bool)
@@ -702,6 +749,7 @@ def check(run: Run) -> None:
     check_untyped_caches(run, "R04.8")
     check_number_spelling(run, "R04.10")
     check_bool_keyed_tables(run, "R04.11")
+    check_parser_keeps_kind(run, "R04.12")
     check_bool_before_int(run, "R04.4", [("core.emitter", "emit_value"), ("core.constraints", "TypeConstraint.evaluate"), ("core.constraints", "RangeConstraint.evaluate"), ("core.validator", "Validator._validate_type")])
     check_number_lexemes(run, "R04.5", lm)
     run.rule("R04.9", "only str values are ever wrapped in double quotes by the emitter (a quoted 5 / true / null is read back as a string): every quoting site is control-dependent on isinstance(<value>, str) (shared with C15 R15.6, C18)", 4)
